@@ -139,7 +139,7 @@ theorem cinv_delete (cmp : K → K → Int) {t t' : Tree K V} {c : Cursor K} (hc
   have hbg : deleteBumpsGen = true := by decide
   unfold delete at hp
   cases hres : del cmp k t.root.id t.root with
-  | absent => rw [hres] at hp; simp only [Option.some.injEq] at hp; subst hp; exact hc
+  | absent => rw [hres] at hp; simp only [deleteMissReturnsFirst, if_true, Option.some.injEq] at hp; subst hp; exact hc
   | crash => rw [hres] at hp; cases hp
   | done r u =>
     rw [hres] at hp; simp only [Option.some.injEq] at hp; subst hp
